@@ -172,6 +172,11 @@ def gen_case(rng, idx, apus, want_supported=True):
         pm = gen_pm(rng, idx, apus)
         case = dict(cfg=gen_cfg(rng), fuel=gen_fuel(rng), pm=pm,
                     traj=gen_traj(rng, pm['lto']['fuel_flow'][1] * pm['number_of_engines'] / 2.0))
+        # a third of the flights are the SECOND flight computed with the same performance-model / fuel / trajectory objects
+        # (fleet runs reuse them); half of those hand over mutable thrust-mode values, as arithmetic on them produces
+        u = rng.random()
+        case['repeat'] = bool(u < 0.34)
+        case['mutable_lto'] = bool(u < 0.17)
         if supported(case) == want_supported:
             return case
         if want_supported:  # repair instead of rejecting: keeps the option distribution
@@ -205,7 +210,10 @@ def build(case):
 
     p = case['pm']
     pm = _PM()
-    tmv = lambda xs: ThrustModeValues(*[float(x) for x in xs])  # noqa: E731
+    if case.get('mutable_lto'):
+        tmv = lambda xs: ThrustModeValues(*[float(x) for x in xs]).copy(mutable=True)  # noqa: E731
+    else:
+        tmv = lambda xs: ThrustModeValues(*[float(x) for x in xs])  # noqa: E731
     e = p['edb']
     pm.edb = EDBEntry(engine=e['engine'], uid=e['uid'], engine_type=e['engine_type'], BP_Ratio=e['BP_Ratio'],
                       rated_thrust=e['rated_thrust'], fuel_flow=tmv(e['fuel_flow']), CO_EI_matrix=tmv(e['CO_EI_matrix']),
@@ -261,6 +269,8 @@ def run_impl(case, mode: str):
         pm, fuel, tr = build(case)
         try:
             with np.errstate(all='ignore'), contextlib.redirect_stdout(io.StringIO()):
+                if case.get('repeat'):
+                    compute_emissions(pm, fuel, tr)   # the inventory examined is the one of the second flight
                 return canon(compute_emissions(pm, fuel, tr))
         except Exception as x:  # classification only; messages never compared
             return {'err': type(x).__name__, 'msg': str(x)[:200]}
